@@ -124,7 +124,15 @@ PROBED = {
 # measured wall seconds (4 workers, thin Rat, busy machine) -- only used to start the long runs first
 COST = {'SpectrumOpsMC_C10_quick.cfg': 215, 'TLSpectrumMC_quick.cfg': 77, 'SpectrumIOMC_quick.cfg': 67, 'MsIOMC_quick.cfg': 53,
         'SchemeMC_C03_quick.cfg': 44, 'SpectrumOpsMC_C08_quick.cfg': 34, 'SpectrumOpsMC_C09_quick.cfg': 34, 'LikelihoodMC_quick.cfg': 28,
-        'SchemeMC_C02_quick.cfg': 27, 'SchemeMC_C04_quick.cfg': 26, 'DataDictMC_flags_quick.cfg': 26, 'LowPassMC_quick.cfg': 25}
+        'SchemeMC_C02_quick.cfg': 27, 'SchemeMC_C04_quick.cfg': 26, 'DataDictMC_flags_quick.cfg': 26, 'LowPassMC_quick.cfg': 25,
+        'SpectrumOpsMC_C10_thoroughA.cfg': 900, 'SpectrumOpsMC_C10_thoroughB.cfg': 900, 'TriSpectrumMC_thorough.cfg': 800,
+        'SchemeMC_C03_thorough.cfg': 800, 'TLSpectrumMC_thoroughB.cfg': 590, 'MsIOMC_thorough.cfg': 550, 'SpectrumIOMC_thorough.cfg': 550,
+        'LowPassMC_thorough.cfg': 550, 'SchemeMC_C02_thorough.cfg': 500, 'SchemeMC_C04_thorough.cfg': 500, 'DataDictMC_flags_thorough.cfg': 450,
+        'MemoMC_thorough.cfg': 450, 'TLSpectrumMC_thoroughA.cfg': 400, 'MemoMC_layout_thorough.cfg': 380, 'DFEQuadMC_thorough.cfg': 320,
+        'DataDictMC_geno1_thorough.cfg': 310, 'DemoMachineMC_thorough.cfg': 300, 'DataDictMC_geno2b_thorough.cfg': 285,
+        'LikelihoodMC_thorough.cfg': 270, 'TLSpectrumMC_thoroughC.cfg': 270, 'SpectrumOpsMC_C08_thoroughB.cfg': 270,
+        'SpectrumOpsMC_C09_thoroughB.cfg': 300, 'CoalescentMC_thorough.cfg': 200, 'MemoMC_memo3_thorough.cfg': 190}
+LONG_POLE = {'SpectrumOpsMC_C10_quick.cfg'}
 
 _LOC = r'line (\d+), col (\d+) to line (\d+), col (\d+) of module (\w+)'
 _HEAD = re.compile(r'^<(\w+) ' + _LOC + r'(?: \((\d+) (\d+) (\d+) (\d+)\))?>(?:: (\d+)(?::(\d+))?)?\s*$')
@@ -400,6 +408,8 @@ def _one(c, workers, timeout, root, cwd, must, reread):
         return rd(cfg), (rd('VacProbe_' + cfg) if module in PROBED and expect == 'pass' else None)
     if expect == 'fail':
         return run_tlc(module, cfg, 2, timeout, root, cwd, must, coverage=False), None
+    if cfg in LONG_POLE:
+        workers *= 2            # the long pole of the quick tier gets twice the workers
     if module in PROBED:
         r = run_tlc(module, 'VacCov_' + cfg, workers, timeout, root, cwd, must, label=cfg)
         pr = run_tlc('VacProbe_' + module, 'VacProbe_' + cfg, workers, timeout, root, cwd, must, coverage=False, label='VacProbe_' + cfg)
